@@ -545,17 +545,25 @@ def run(ctx, only_cases=None):
     cases = [c for c in cases if c.get("mode") != "overlap"]
     twins = [honest_twin(c) for c in cases if twin_wanted(c)]
     malformed = malformed_cases(ctx.rng, handled, 240 if thorough else 72) if only_cases is None else []
+    import time as _t
+    phase = {}
+    _t0 = _t.time()
     outs = vlib.run_harness(binary, cases + twins + malformed, timeout=1500)
+    phase["commands_s"] = round(_t.time() - _t0, 1)
     for c, o in zip(cases + twins + malformed, outs):
         if o.get("setup_err"):
             raise vlib.Broken("C11 harness world setup failed", json.dumps({"case": c, "err": o["setup_err"]})[:3000])
     couts = outs[:len(cases)]
     touts = outs[len(cases):len(cases) + len(twins)]
+    _t0 = _t.time()
     pnouts = vlib.run_harness(binary, pend, timeout=900) if pend else []
+    phase["pending_s"] = round(_t.time() - _t0, 1)
+    _t0 = _t.time()
     for c, o in zip(pend, pnouts):
         if o.get("setup_err"):
             raise vlib.Broken("C11 harness pending-table setup failed", json.dumps({"err": o["setup_err"]})[:3000])
     oouts = vlib.run_harness(binary, ovl, timeout=900) if ovl else []
+    phase["overlap_s"] = round(_t.time() - _t0, 1)
     for c, o in zip(ovl, oouts):
         if o.get("setup_err"):
             raise vlib.Broken("C11 harness overlap setup failed", json.dumps({"case": c, "err": o["setup_err"]})[:3000])
@@ -675,6 +683,7 @@ def run(ctx, only_cases=None):
     dist["pending_cases"] = len(pend)
     dist["pending_requests"] = sum(len(c["reqs"]) for c in pend)
     dist["pending_foreign_answers_sent"] = sum(1 for c, o in zip(pend, pnouts) for op in c["ops"] if op[0] == 1 and op[2] != o["forwarded"][op[1]])
+    dist["phase_wall"] = phase
     dist["two_node_cases"] = sum(1 for c in cases if c.get("xnode"))
     dist["steps_relaying_to_another_node"] = sum(1 for c, o in zip(cases, couts) for so in o["steps"] if any(d[1] >= 1000 for d in so["deliveries"]))
     dist["overlap_cases"] = len(ovl)
